@@ -55,6 +55,7 @@ impl<R: Read> Reader<R> {
             self.mu() <= old(self).mu(),
             self.pending() =~= old(self).pending().subrange(old(self).pending().len() - self.pending().len(), old(self).pending().len() as int),
             ws_run(old(self).pending()) == (old(self).pending().len() - self.pending().len()) + ws_run(self.pending()),
+            forall|i: int| 0 <= i < old(self).pending().len() - self.pending().len() ==> (#[trigger] old(self).pending()[i]) is Some,
         decreases self.mu(),
 //@@ endfn
 
@@ -68,6 +69,7 @@ impl<R: Read> Reader<R> {
             self.mu() <= old(self).mu(),
             self.pending() =~= old(self).pending().subrange(old(self).pending().len() - self.pending().len(), old(self).pending().len() as int),
             digit_run(old(self).pending()) == (old(self).pending().len() - self.pending().len()) + digit_run(self.pending()),
+            forall|i: int| 0 <= i < old(self).pending().len() - self.pending().len() ==> (#[trigger] old(self).pending()[i]) is Some,
             digits@ =~= old(digits)@.add(unwrap_all(old(self).pending().subrange(0, old(self).pending().len() - self.pending().len()))),
         decreases self.mu(),
 //@@ endfn
